@@ -26,8 +26,8 @@ ASSUMPTIONS = ["carrier schemas: dataframe = 7 atom columns + 4-column bonds (ch
 WHERE = {}
 
 RESN = ["ALA", "GLY", "LYS", "HOH", "NA", "CL", "LIG", "PRO", "TIP3"]
-ANAMES = ["N", "CA", "C", "O", "CB", "H", "HA", "OW", "HW1", "O5'", "C1", "NA", "CL", "HG21"]
-ELS = ["N", "C", "C", "O", "C", "H", "H", "O", "H", "O", "C", "Na", "Cl", "H"]
+ANAMES = ["N", "CA", "C", "O", "CB", "H", "HA", "OW", "HW1", "O5'", "C1", "NA", "CL", "HG21", "D1", "ZN", "SE"]
+ELS = ["N", "C", "C", "O", "C", "H", "H", "O", "H", "O", "C", "Na", "Cl", "H", "D", "Zn", "Se"]       # (D: an isotope sharing Z = 1 with H)
 BTYPES = [None, "Single", "Double", "Triple", "Aromatic", "Amide"]
 
 
